@@ -73,6 +73,10 @@ def run(rep, tier, rng):
                                "b": r[0][j] if j is not None else r[1]})
                 break
     rep.extra["program_groups_judged_by_the_reference_evaluator"] = ref_judged[0]
+    # lexical lookup of the innermost binding under constant shadowing and re-binding: the scope soup of C03 (nested let / let* /
+    # directly applied lambdas whose operands mention the names they re-bind / internal definitions), judged by the reference evaluator
+    from . import c03
+    c03.scope_soup(rep, tier, rng)
 
 
 def main(tier, seed):
